@@ -77,6 +77,16 @@ check("C16", "exploration", "bounded-exhaustive corpus x page-size enumeration o
       "Corpora with m in {1,3,7,20,21,25} (quick) / {1,2,3,7,19,20,21,25,41} (thorough) matching documents a day apart, every third with two snippet slices; a text query and a pure field query; for every page size 1..10 the cursor is followed to the end and the concatenation is compared with one request of top_k = 200: same (frame, range) sequence, constant total_hits; after commit and after close+open.",
       "The legacy LexIndex path cannot be reached in a default build (new files never contain that index).", "DESIGN.md §3 C16", "corpus")
 
+check("C08", "exploration", "bounded-exhaustive history exploration with a read battery on the real implementation",
+      "Every op sequence up to depth 2 (quick) / 3-4 (thorough) over {put with a unique word, put with embedding, chunked put, update with new text, metadata-only update, update with a new embedding, two deletes, commit, close+open} from a fresh file, after a commit (with and without the instant index) and after a chunked document; after every commit/open: search for every word ever stored (with and without sketch), ask(context_only), search_vec / vec_search_with_embedding / search_adaptive with each stored embedding, timeline, frame_by_uri for every uri. No hit, citation, fragment or timeline entry may name an inactive frame; frame_by_uri returns the newest active version; the old version records its successor; unspecified fields are inherited.",
+      "An active successor may still match an old word (tags derived from the old text are inherited and are part of the searchable text); the statement only forbids returning the inactive frame itself.", "DESIGN.md §3 C08", "hist")
+check("C13", "exploration", "bounded-exhaustive embedding-set x query enumeration on the real implementation",
+      "Every multiset of <= 4 points of {-1,0,1}^1 and of <= 2 (quick) / <= 4 (thorough) points of {-1,0,1}^2, plus fixed sets for d in {3,8,9,64} with duplicates, 1e18 and +-3e38 coordinates; every lattice point as query, k in {0,1,2,5}, queries of dimension d-1, d+1 and 0; after commit and after close+open. Oracle: min(k,m) hits, non-decreasing distances equal to the f64 reference within 1e-4, no omitted frame closer than the last hit by more than 1e-5 relative, VecDimensionMismatch for a wrong dimension, identical answers across reopen.",
+      "Sets with coordinates beyond the f32 square range are classified under their own signature (known finding).", "DESIGN.md §3 C13", "corpus")
+check("C14", "exploration", "bounded-exhaustive history exploration on the real implementation against a reference model",
+      "Every op sequence up to depth 2 (quick) / 3 (thorough) over 13 ops (embedded put, chunked put with chunk embeddings, plain put, metadata-only / new-embedding / new-payload update, delete, commit, close+open, leaked handle, vacuum, doctor, doctor with rebuild_vec_index) from a fresh file and from files with committed vectors; after every commit/open/vacuum/doctor the set of frames returned by search_vec(q, m+5) must equal the reference's active embedded frames, frame_embedding(id) the embedding given or carried over, and stats.vector_count their number; plus (hnsw_bench build) index sizes 999/1000/1001 around the representation switch.",
+      "", "DESIGN.md §3 C14", "hist")
+
 NOT_APPLICABLE = {}
 
 def main():
